@@ -68,3 +68,44 @@ Definition txr_writer (oneofs : list (string * string)) (quads : bool) (maxn max
 (* the specification of rdflib's objects, observed: (isinstance URIRef, BNode, Literal), str(x), x == y *)
 Definition txr_obs (a b : robj) : (bool * bool * bool) * option str * bool :=
   ((is_O_URIRef SN a, is_O_BNode SN a, is_O_Literal SN a), obj_str SN a, obj_eqb SN a b).
+
+(* ------------------------------------------------------------------ the rdflib drivers over the stand-ins of rdflib's containers
+   (translate/stubs/rdflib_containers.py): a Graph / Dataset is what the real one handed out when the harness iterated it *)
+Definition txr_graph (identifier : robj) (triples : list (list robj)) (ns : list (str * robj)) : Graph SN :=
+  mk_Graph identifier triples ns.
+
+Definition txr_stream (phys : Z) (maxn maxp maxd : Z) (gen star : bool) (version : Z) (delimited nd : bool) (name : str) (frame_size logical : Z) : outcome RStream :=
+  match LookupPreset___init__ maxn maxp maxd with
+  | Exn e => Exn e
+  | Val preset =>
+  match StreamParameters___init__ SN gen star version delimited nd name with
+  | Exn e => Exn e
+  | Val params =>
+  match SerializerOptions___init__ SN None frame_size logical params preset with
+  | Exn e => Exn e
+  | Val opts =>
+  match TermEncoder___init__ SN (Some preset) with
+  | Exn e => Exn e
+  | Val enc =>
+    if phys =? 1 then TripleStream___init__ SN enc (Some opts) else if phys =? 2 then QuadStream___init__ SN enc (Some opts) else GraphStream___init__ SN enc (Some opts)
+  end end end end.
+
+(* which driver on which kind of data: 1 triples / Graph, 2 triples / Dataset, 3 quads / Dataset, 4 graphs / Dataset, 5 stream_frames / Dataset,
+   6 triples / generator, 7 quads / generator *)
+Definition txr_driver (oneofs : list (string * string)) (which phys : Z) (maxn maxp maxd : Z) (gen star : bool) (version : Z) (delimited nd : bool) (name : str)
+                      (frame_size logical : Z) (g : Graph SN) (graphs : list (Graph SN)) (quads : list (list robj)) (ns : list (str * robj)) (stmts : list (list robj))
+  : list (pbval str) * option exn :=
+  match txr_stream phys maxn maxp maxd gen star version delimited nd name frame_size logical with
+  | Exn e => ([], Some e)
+  | Val s0 =>
+    let ds := mk_Dataset graphs quads ns in
+    let '(r, ys) :=
+      if which =? 1 then let '(r, _, _, ys) := triples_stream_frames SN s0 g in (r, ys)
+      else if which =? 2 then let '(r, _, _, ys) := triples_stream_frames_ds SN s0 ds in (r, ys)
+      else if which =? 3 then let '(r, _, _, ys) := quads_stream_frames SN s0 ds in (r, ys)
+      else if which =? 4 then let '(r, _, _, ys) := graphs_stream_frames SN s0 ds in (r, ys)
+      else if which =? 5 then let '(r, _, _, ys) := stream_frames SN s0 ds in (r, ys)
+      else if which =? 6 then let '(r, _, _, ys) := triples_stream_frames_gen SN s0 stmts in (r, ys)
+      else let '(r, _, _, ys) := quads_stream_frames_gen SN s0 stmts in (r, ys) in
+    (map (pb_canon oneofs) ys, match r with Exn e => Some e | Val _ => None end)
+  end.
